@@ -31,7 +31,8 @@ Hub == SObj(
            "numdescarr", SArr(With(SNum, "description", "annotated item")))
  @@ Props3("keymap", [type |-> "object", propertyNames |-> [type |-> "string", pattern |-> "^a+$"], additionalProperties |-> STrue],
            "patmap", [type |-> "object", patternProperties |-> ("^a" :> STrue)],
-           "keymapint", [type |-> "object", propertyNames |-> [type |-> "string", pattern |-> "^a+$"], additionalProperties |-> SInt]),
+           "keymapint", [type |-> "object", propertyNames |-> [type |-> "string", pattern |-> "^a+$"], additionalProperties |-> SInt])
+ @@ Props2("odd", SRef("3d-point"), "oddarr", SArr(SRef("3d-point"))),
     {"direct", "tup", "nested"})
 HubVar == SOneOf(<< ExtVar("A", RefT), ExtVar("B", SInt), ExtVar("N", SNum) >>)
 Other == SObj(Props3("s", SStr, "n", SInt, "m", SMap(SStr)), {"s"})
@@ -44,12 +45,19 @@ NotAb == [type |-> "string", not |-> [enum |-> <<JS(<<"a">>), JS(<<"b">>)>>]]
 Labels == SArr(SStr)
 Holder == SObj(Props3("code", SRef("Code"), "lvl", SRef("Lvl"), "notab", SRef("NotAb")) @@ Props1("labels", SRef("Labels")), {"code"})
 Defs == ("Tgt" :> Tgt) @@ ("Hub" :> Hub) @@ ("HubVar" :> HubVar) @@ ("Other" :> Other) @@ ("Col" :> Col)
+        (* uses of the replaced definition in definitions converted after it: merged into an allOf,
+           and as the type of a property *)
+        @@ ("Zed" :> SAllOf(<<RefT, SObj(Props1("z", SInt), {})>>))
+        @@ ("Zuse" :> SObj(Props1("t", RefT), {"t"}))
+        (* a definition key that is not its own identifier (sanitised: X3dPoint) *)
+        @@ ("3d-point" :> SObj(Props1("x", SInt), {"x"}))
         @@ ("Code" :> Code) @@ ("Lvl" :> Lvl) @@ ("NotAb" :> NotAb) @@ ("Labels" :> Labels) @@ ("Holder" :> Holder)
 
 Settings ==
     [builder |-> s.builder, map |-> s.map]
     @@ (IF s.derive THEN [derives |-> <<"PartialEq">>] ELSE << >>)
-    @@ (IF s.replace THEN [replace |-> [Tgt |-> [ty |-> "crate::support::ReplT", impls |-> << >>]]] ELSE << >>)
+    @@ (IF s.replace THEN [replace |-> [Tgt |-> [ty |-> "crate::support::ReplT", impls |-> << >>],
+                                        X3dPoint |-> [ty |-> "crate::support::ReplT", impls |-> << >>]]] ELSE << >>)
     @@ (IF s.patch THEN [patch |-> [Tgt |-> [rename |-> "Renamed", derives |-> <<"Eq", "PartialEq">>],
                                     Code |-> [rename |-> "CodeR", derives |-> <<"Default">>],
                                     Lvl |-> [rename |-> "", derives |-> <<"Default">>],
